@@ -63,7 +63,7 @@ impl C03Search {
         if entry.bytes() && base < 3 {
             let n = rng.urange(0, 64);
             let b: Vec<u8> = (0..n).map(|_| if rng.chance(1, 2) { *rng.pick(b"{}[]:,\"\\u0123456789-+.eEtrufalsn \n") } else { rng.below(256) as u8 }).collect();
-            return (StreamSc { entry, target, opts, src: Src::Bytes(b), faults: vec!["random-bytes".into()], context: 0, hint: 0 }, K_BYTESET, Some(0));
+            return (StreamSc { entry, target, opts, src: Src::Bytes(b), faults: vec!["random-bytes".into()], context: 0, hint: 0, reenter_at: 0 }, K_BYTESET, Some(0));
         }
         let doc: Vec<char> = match base {
             0..=2 => self.docs.chars[rng.usize_below(self.docs.chars.len())].1.clone(),
@@ -96,7 +96,7 @@ impl C03Search {
             faults.push(apply(&mut evs, kind, k, c, aux));
             if first.map(|f| k < f.1).unwrap_or(true) { first = Some((kind, k)); }
         }
-        let mut sc = StreamSc { entry, target, opts, src: Src::Events(evs), faults, context: if entry == Entry::ParseIn { rng.below(4) as u8 } else { 0 }, hint: if entry.iterator() { match rng.below(8) { 0 => 1, 1 => 2, _ => 0 } } else { 0 } };
+        let mut sc = StreamSc { entry, target, opts, src: Src::Events(evs), faults, context: if entry == Entry::ParseIn { rng.below(4) as u8 } else { 0 }, hint: if entry.iterator() { match rng.below(8) { 0 => 1, 1 => 2, _ => 0 } } else { 0 }, reenter_at: if entry.iterator() && rng.chance(1, 10) { 1 + rng.below(12) as u32 } else { 0 } };
         if entry == Entry::FromStr { sc.target = Target::Value; }
         sc.normalise();
         if entry.bytes() && rng.chance(1, 2) {
@@ -148,7 +148,7 @@ impl C03CorpusBytes {
         let h = { let mut x = run.wrapping_mul(0x9e37_79b9_7f4a_7c15); crate::kernel::rng::splitmix64(&mut x) };
         let entry = if h & 1 == 0 { Entry::SliceWith } else { Entry::Slice };
         let opts = (h & 2 != 0, h & 4 != 0);
-        (StreamSc { entry, target: Target::Value, opts, src: Src::Bytes(b), faults, context: 0, hint: 0 }, kind, at)
+        (StreamSc { entry, target: Target::Value, opts, src: Src::Bytes(b), faults, context: 0, hint: 0, reenter_at: 0 }, kind, at)
     }
 }
 
@@ -171,6 +171,13 @@ pub struct C03Deep {
 impl C03Deep {
     pub fn build(&self, seed: u64, run: u64) -> DeepSc {
         let mut rng = Rng::for_run(seed, self.id(), run);
+        // runs 50..68: every sibling combination once for arrays and objects (success path: parse + traverse + count + volume)
+        if (50..68).contains(&run) {
+            let i = (run - 50) as usize;
+            let codes = ["nn", "ns", "nc", "sn", "ss", "sc", "cn", "cs", "cc"];
+            let shape = format!("{}-sib-{}", if i < 9 { "array" } else { "object" }, codes[i % 9]);
+            return DeepSc { shape, depth: 100_000, stack_kib: 64, tail: "none".into(), tail_at: 0, via: "str".into(), opts: (false, false), fault: None, outer: None, unit: None };
+        }
         // runs 20..: every fixed run-template once (a long run of one token at each grammar position)
         if run >= 20 && ((run - 20) as usize) < RUN_TEMPLATES.len() {
             let (template, unit) = RUN_TEMPLATES[(run - 20) as usize];
@@ -225,6 +232,13 @@ impl C03Deep {
             let shape = rng.pick(&["array-closed", "object-closed", "mixed-closed", "wide-closed"]).to_string();
             let via = if kind == "fail" && via == "str" { "iter".to_string() } else { via };
             return DeepSc { shape, depth, stack_kib, tail: "generic-from-end".into(), tail_at: 0, via, opts, fault: Some((kind.to_string(), from_end, c)), outer: Some(outer), unit: None };
+        }
+        // an eighth of the random scenarios: siblings before / after the deep child at every level
+        if (run as usize) >= fixed.len() && rng.chance(1, 8) {
+            let shape = format!("{}-sib-{}{}", rng.pick(&["array", "object", "mixed"]), rng.pick(&["n", "s", "c"]), rng.pick(&["n", "s", "c"]));
+            let tail = rng.pick(&["none", "none", "garbage-after-root", "fail-after-root"]).to_string();
+            let via = if tail.contains("fail") && via == "str" { "iter".to_string() } else { via };
+            return DeepSc { shape, depth: depth.min(300_000), stack_kib, tail, tail_at: 0, via, opts, fault: None, outer: None, unit: None };
         }
         // a fifth of the random scenarios: a long *run* of one token somewhere in a flat document
         if (run as usize) >= fixed.len() && rng.chance(1, 4) {
